@@ -7,6 +7,8 @@ from vf.fixtures import hier
 
 NS = {k: getattr(hier, k) for k in dir(hier) if not k.startswith("_")}
 NS["defaultdict"] = collections.defaultdict
+NS["deque"] = collections.deque
+NS["OrderedDict"] = collections.OrderedDict
 NS["NoneType"] = type(None)
 
 
@@ -43,6 +45,12 @@ SMALL_CONTAINERS = [
     "(lambda r: (r, [r, 3]))([1])", "(lambda d: (d, [d, 's']))({'a': 1})", "(lambda r: [[r], [r, None]])([1])", "(lambda d: {1: d, 2: [d, 1.5]})({'k': 1})",
     "(lambda r: (r, {r[0], 's'}))((1,))", "(lambda d: [d, defaultdict(int, {'p': d, 'q': 1})])({'k': 1})", "(lambda r: {'x': r, 'y': {1: r, 2: A()}})([1])",
     "(lambda r: ([r], [r], [r, 's']))([])",
+    # keys that are not their own NFKC form (micro sign, ligature, fullwidth letter, decomposed accent next to the precomposed one)
+    "{'\u00b5': 1}", "{'\ufb01': 1, 'fi': 'x'}", "{'\uff41': [1]}", "{'cafe\u0301': 1, 'caf\u00e9': 's'}", "[{'\u00b5s': 1}, {'\u03bcs': 's'}]",
+    # string keys that cannot be written as fields of a class-syntax TypedDict
+    "{'content-type': 'x'}", "{'class': 1, 'x': 2}", "{'1x': 's'}", "{'': 1}", "{'a b': 2, 'c': None}", "[{'a-b': 1}, {'a': 1}]", "{'k': {'x.y': 1}}",
+    # standard-library containers the tracer treats as plain classes
+    "deque([1])", "deque([{'a': 1}])", "OrderedDict(a=1)", "OrderedDict(k={'a': 1})", "frozenset([(1, 'a')])",
     # classes of user modules named like builtins
     "TimeoutError()", "[TimeoutError(), Warning()]", "{'a': KeyError_()}", "Warning",
     # str-subclass keys, falsy class objects
@@ -84,7 +92,7 @@ def dict_families(max_members=3):
         yield from itertools.combinations(mem, n)
 
 
-KEYS = ["a", "b", "c", "d", "e", "f", "g", "h", "i", "j", "k", "l", "m", "module", "qualname", "elem_types"]
+KEYS = ["a", "b", "c", "d", "e", "f", "g", "h", "i", "j", "k", "l", "m", "module", "qualname", "elem_types", "\u00b5", "\ufb01", "fi", "\uff41", "content-type", "class", "1x"]
 
 
 def gen_dict(rng, depth, nkeys=None, keymode=None):
